@@ -34,6 +34,10 @@ class Req:
                 "chunks": [c.decode("latin-1") for c in self.chunks], "root_path": self.root_path}
 
 
+class Livelock(Exception):
+    """the application keeps polling receive() although it has been told that the client is gone (a busy loop: it would never return)"""
+
+
 class ChunkedInput:
     """wsgi.input delivering the body in the given pieces (an empty read means EOF in WSGI)"""
 
@@ -44,6 +48,10 @@ class ChunkedInput:
 
     def read(self, size=-1):
         self.reads += 1
+        if not self.rest and not self.chunks:
+            self.eof_reads = getattr(self, "eof_reads", 0) + 1
+            if self.eof_reads > 2000:     # the application keeps reading although the input has ended two thousand times
+                raise Livelock("wsgi.input.read() called %d times after the end of the input" % self.eof_reads)
         if size is None or size < 0:
             data = self.rest + b"".join(self.chunks)
             self.rest, self.chunks = b"", []
@@ -171,6 +179,8 @@ def wsgi_call(app, r_or_env, max_items=None, close_after=None):
             for item in it:
                 res.items.append(item)
                 n += 1
+                if n > 200000:       # no scenario of any check produces that many pieces: the iterable never ends
+                    raise Livelock("the response iterable yielded %d items and goes on" % n)
                 if close_after is not None and n >= close_after:
                     res.stopped_early = True
                     break
@@ -225,10 +235,6 @@ class AsgiResult:
         def d(x):
             return x.decode("latin-1") if isinstance(x, (bytes, bytearray)) else str(x)
         return sorted((d(k).lower(), d(v)) for k, v in self.headers)
-
-
-class Livelock(Exception):
-    """the application keeps polling receive() although it has been told that the client is gone (a busy loop: it would never return)"""
 
 
 def asgi_call(app, r_or_scope, messages=None, *, extensions=None, send_fail_at=None, disconnect_after_sends=None,
